@@ -521,6 +521,18 @@ impl<'a> Ev<'a> {
         }
         let outs = self.eval_expr(st, &c.body);
         self.cur_file.replace(saved_file);
+        // a closure is evaluated in a copy of the environment it captured: what it writes to a captured variable would be
+        // lost (and with it state carried from one call to the next) - not modelled, so refused
+        for (s, _) in &outs {
+            for (si, sc) in c.env.iter().enumerate() {
+                for (n, before) in sc {
+                    if let Some(after) = s.env.get(si).and_then(|m| m.get(n)) {
+                        if matches!(before, Val::Closure(_) | Val::LocalFn(_)) { continue; }
+                        if after.short() != before.short() { self.unsup(&format!("a closure changes the captured variable `{n}` (state shared between its calls)"), syn::spanned::Spanned::span(&c.body)); }
+                    }
+                }
+            }
+        }
         outs.into_iter()
             .map(|(mut s, fl)| {
                 s.env = saved_env.clone();
@@ -1412,6 +1424,20 @@ impl<'a> Ev<'a> {
     fn eval_binary(&self, st: St, b: &syn::ExprBinary) -> Outs {
         use syn::BinOp::*;
         match &b.op {
+            // `flag |= cond` / `flag &= cond` on booleans: `if cond { flag = true }` / `if !cond { flag = false }`
+            BitOrAssign(_) | BitAndAssign(_) => {
+                let is_or = matches!(b.op, BitOrAssign(_));
+                let outs = self.eval_expr(st, &b.right);
+                then(outs, |s, rv| {
+                    let Some(f) = self.as_formula(&s, &rv) else { self.unsup(&format!("|= / &= on {}", rv.short()), b.right.span()); return vec![]; };
+                    let mut r = Vec::new();
+                    for (mut s2, bv) in self.decide(s, &f) {
+                        if bv == is_or { self.assign_place(&mut s2, &b.left, Val::Bool(is_or)); }
+                        r.push((s2, Flow::Val(Val::Unit)));
+                    }
+                    r
+                })
+            }
             And(_) | Or(_) => {
                 let is_and = matches!(b.op, And(_));
                 let outs = self.eval_expr(st, &b.left);
